@@ -319,8 +319,9 @@ class DPSKDemodulator(BaseDemodulator):
                 min_dist_0 = self._min_distance_to_points(z, const_bit_0, effective_noise_var)
                 min_dist_1 = self._min_distance_to_points(z, const_bit_1, effective_noise_var)
 
-                # Calculate LLR: log(P(bit=0)/P(bit=1))
-                llrs[..., bit_idx] = min_dist_1 - min_dist_0
+                # Calculate LLR: log(P(bit=0)/P(bit=1)); the helper returns the negated minimum
+                # distance (max of -|z - s|^2 / noise_var), so the bit-0 term comes first
+                llrs[..., bit_idx] = min_dist_0 - min_dist_1
 
             return llrs.reshape(*batch_shape, -1)
 
